@@ -92,9 +92,9 @@ func drawCfg(r *simkit.Run) config {
 	c.NoFaults = tp.Intn(4) == 0
 	c.Torn = tp.Intn(2) == 1
 	c.Diverged = tp.Intn(4) == 3
-	// 256 KiB never fills in these histories (no flush except at recovery);
+	// 64 KiB never fills in these histories (no flush except at recovery);
 	// the small sizes force flushes, WAL rotation and compactions mid-history.
-	c.MemTable = []uint64{256 << 10, 16 << 10, 4 << 10, 64 << 10}[tp.Intn(4)]
+	c.MemTable = []uint64{64 << 10, 16 << 10, 4 << 10, 8 << 10}[tp.Intn(4)]
 	c.Chunk = []uint64{1 << 20, 16, 64, 5}[tp.Intn(4)]
 	c.Wait = []time.Duration{5 * time.Millisecond, time.Millisecond, 50 * time.Millisecond}[tp.Intn(3)]
 	c.Items = []int{128, 2, 1, 3}[tp.Intn(4)]
@@ -224,8 +224,10 @@ func runC14(t *testing.T, r *simkit.Run) {
 	// (sstable.writeTaskPool); a channel made in one bubble must not be used in
 	// the next ("send on synctest channel from outside bubble"). Two GC cycles
 	// empty every sync.Pool (primary and victim cache).
-	runtime.GC()
-	runtime.GC()
+	if os.Getenv("RLS_NOGC") == "" {
+		runtime.GC()
+		runtime.GC()
+	}
 	simkit.Bubble(t, r, func() {
 		start := time.Now()
 		w := &world{r: r, cfg: c, tmp: tmp, seen: map[uint64]bool{}}
